@@ -1,10 +1,10 @@
 package checks
 
 import (
-	"strings"
 	"bytes"
 	"fmt"
 	"reflect"
+	"strings"
 	"testing"
 	"unsafe"
 
